@@ -416,7 +416,7 @@ func TestCheck(t *testing.T) {
 	}
 	nl := len(urls) * len(profiles)
 	fullLen := mc.Pick(r, 3, 4)
-	r.Rule = fmt.Sprintf("every access-log stream of length 1..%d over %d record letters (5 URLs, three of which converge under an inferred path parameter at threshold %d, x 4 method/status/duration/consumer/interceptor profiles), plus all streams one record longer over 10 letters and two records longer (length %d) over the 4 path URLs; x every composition into consecutive batches x a restart (state re-read from disk, tree rebuilt) after any batch; non-trivial = stream with >=3 distinct URLs; distinct = stream", fullLen, nl, threshold, fullLen+2)
+	r.Rule = fmt.Sprintf("every access-log stream of length 1..%d over %d record letters (5 URLs, three of which converge under an inferred path parameter at threshold %d, x 4 method/status/duration/consumer/interceptor profiles), plus all streams one record longer over 10 letters and over the 4 path URLs x {GET, POST}, and two records longer (length %d) over the 4 path URLs; x every composition into consecutive batches x a restart (state re-read from disk, tree rebuilt) after any batch; non-trivial = stream with >=3 distinct URLs; distinct = stream", fullLen, nl, threshold, fullLen+2)
 	r.Assume("records are attributed to endpoints with the run's own final URL tree (lookup only)", "after a restart only totals are compared (the rebuilt tree may attribute later records to raw URLs)",
 		"averages compared with the exact rational mean within 1e-4 relative")
 	if r.Parallel(t, 16) {
@@ -450,6 +450,21 @@ func TestCheck(t *testing.T) {
 	mc.Sequences(half, fullLen+1, func(l []int) bool {
 		if len(l) == fullLen+1 {
 			visit(l)
+		}
+		return true
+	})
+	// (2b) the same length over the four path URLs x {GET profile, POST profile}: two methods on
+	// one URL while the tree converges
+	mc.Sequences(8, fullLen+1, func(l []int) bool {
+		if len(l) == fullLen+1 {
+			m := make([]int, len(l))
+			for i, x := range l {
+				m[i] = x % 4 // URL
+				if x >= 4 {
+					m[i] += 2 * len(urls) // profile 2 (POST)
+				}
+			}
+			visit(m)
 		}
 		return true
 	})
